@@ -33,14 +33,24 @@ func newDiffState(oldMast *Mast, newMast *Mast) *diffState {
 	dc.alreadyNotifiedNewLink = map[uint8]interface{}{}
 	if oldMast != nil {
 		dc.oldMast = oldMast
-		if oldMast.root != nil {
-			dc.oldStack = newIterItemStack(iterItem{considerLink: oldMast.root})
+		if root := diffRoot(oldMast); root != nil {
+			dc.oldStack = newIterItemStack(iterItem{considerLink: root})
 		}
 	}
-	if newMast.root != nil {
-		dc.newStack = newIterItemStack(iterItem{considerLink: newMast.root})
+	if root := diffRoot(newMast); root != nil {
+		dc.newStack = newIterItemStack(iterItem{considerLink: root})
 	}
 	return &dc
+}
+
+// diffRoot returns the top link of a tree, or nil for an empty tree: the
+// in-memory placeholder node of an empty tree is not a node of any version
+// and must not be reported by DiffLinks.
+func diffRoot(m *Mast) interface{} {
+	if node, ok := m.root.(*mastNode); ok && node.isEmpty() {
+		return nil
+	}
+	return m.root
 }
 
 func (dc *diffState) resetCurrent() {
